@@ -306,3 +306,182 @@ def logic_diff(fa: ast.FunctionDef, fb: ast.FunctionDef, renames: dict | None = 
                     walk(hx.body, hy.body)
     walk(fa.body, fb.body)
     return out
+
+
+# ---------------------------------------------------------------------------------------------------------------
+# emission_skeleton: what a generator function EMITS, independent of how its code is laid out.
+# One-sided behaviour-preserving edits of one of two sibling generators (renamed locals, a hoisted sub-expression,
+# .format -> f-string, an explaining variable) leave it unchanged; a change of what is emitted, in which order, under
+# which condition or from which data does not.
+
+def emission_skeleton(fn: ast.FunctionDef, flow, renames: dict | None = None) -> list[str]:
+    from .match import txt as _txt
+    renames = renames or {}
+    out: list[str] = []
+
+    accumulators = {n.target.id for n in ast.walk(fn) if isinstance(n, ast.AugAssign) and isinstance(n.target, ast.Name)}
+    # loop variables are bound names: call them by the depth and position of their binding
+    loop_ren: dict[int, dict[str, str]] = {}
+
+    def loopvars(stack):
+        ks = set(accumulators)
+        for n in stack:
+            if isinstance(n, ast.For):
+                ks |= {x.id for x in ast.walk(n.target) if isinstance(x, ast.Name)}
+        return ks
+
+    def bound(stack):
+        m: dict[str, str] = {}
+        d = 0
+        for n in stack:
+            if isinstance(n, ast.For):
+                d += 1
+                for i, x in enumerate(y for y in ast.walk(n.target) if isinstance(y, ast.Name)):
+                    m[x.id] = f"_v{d}{chr(97 + i)}"
+        return m
+
+    class _Ren(ast.NodeTransformer):
+        def __init__(self, m):
+            self.m = m
+
+        def visit_Name(self, n):
+            return ast.copy_location(ast.Name(self.m[n.id], n.ctx), n) if n.id in self.m else n
+
+    def ex(e, stack):
+        try:
+            e = flow.expand(e, keep=loopvars(stack))
+        except Exception:
+            pass
+        m = bound(stack)
+        if m:
+            import copy
+            e = _Ren(m).visit(copy.deepcopy(e))
+        return e
+
+    def holes_of(e, stack):
+        """non-literal pieces of an emitted expression, in order (after expansion of locals)"""
+        e = ex(e, stack)
+        hs: list[str] = []
+
+        def go(x):
+            if isinstance(x, ast.JoinedStr):
+                for p in x.values:
+                    if isinstance(p, ast.FormattedValue):
+                        spec = ""
+                        if p.format_spec is not None:
+                            spec = ":" + "".join(q.value if isinstance(q, ast.Constant) else "{" + _txt(q.value) + "}" for q in p.format_spec.values)
+                        conv = {-1: "", 115: "!s", 114: "!r", 97: "!a"}.get(p.conversion, "")
+                        inner = p.value
+                        if isinstance(inner, (ast.JoinedStr, ast.BinOp)) and _textish(inner):
+                            go(inner)          # a piece of text interpolated into text: its own holes
+                        else:
+                            hs.append("{" + _norm(_txt(inner), renames) + conv + spec + "}")
+                return
+            if isinstance(x, ast.BinOp) and isinstance(x.op, ast.Add) and (_textish(x.left) or _textish(x.right)):
+                go(x.left)
+                go(x.right)
+                return
+            if isinstance(x, ast.Constant):
+                return
+            if isinstance(x, ast.Call) and isinstance(x.func, ast.Name) and x.func.id == "__phi__":
+                hs.append("phi(" + " | ".join(sorted(_norm(_txt(a), renames) for a in x.args)) + ")")
+                return
+            if isinstance(x, ast.IfExp) and (_textish(x.body) or _textish(x.orelse)):
+                hs.append("if " + _norm(_txt(x.test), renames))
+                go(x.body)
+                hs.append("else")
+                go(x.orelse)
+                hs.append("fi")
+                return
+            hs.append("+(" + _norm(_txt(x), renames) + ")")
+        go(e)
+        return hs
+
+    def _textish(x):
+        return isinstance(x, ast.JoinedStr) or (isinstance(x, ast.Constant) and isinstance(x.value, str)) or \
+            (isinstance(x, ast.BinOp) and isinstance(x.op, ast.Add) and (_textish(x.left) or _textish(x.right)))
+
+    def conds(test, stack):
+        from . import guards
+        return " & ".join(sorted(("" if p else "not ") + _norm(_txt(a), renames) for a, p in guards.canon_cond(ex(test, stack), True)))
+
+    def emit(pre, hs):
+        if hs:                                   # a literal-only line is syntax of the target language
+            out.append(f"{pre}emit " + " ".join(hs))
+
+    def walk(body, depth, stack):
+        pre = "  " * depth
+        body = _strip_doc(body)
+        for i, st in enumerate(body):
+            if isinstance(st, ast.Return) and isinstance(st.value, ast.IfExp):
+                st = ast.If(st.value.test, [ast.Return(st.value.body)], [ast.Return(st.value.orelse)])
+            if isinstance(st, ast.If):
+                orelse = st.orelse
+                rest = False
+                if not orelse and st.body and isinstance(st.body[-1], (ast.Return, ast.Raise)) and body[i + 1:]:
+                    orelse, rest = body[i + 1:], True        # guard clause: the remainder of the block is the else branch
+                test, then = st.test, st.body
+                if orelse and isinstance(test, ast.UnaryOp) and isinstance(test.op, ast.Not):
+                    test, then, orelse = test.operand, orelse, then        # `if not c: A else: B` is `if c: B else: A`
+                out.append(f"{pre}if {conds(test, stack)}")
+                walk(then, depth + 1, stack)
+                if orelse:
+                    out.append(f"{pre}else")
+                    walk(orelse, depth + 1, stack)
+                if rest:
+                    return
+            elif isinstance(st, ast.For):
+                out.append(f"{pre}for {_norm(_txt(ex(st.iter, stack)), renames)}")
+                walk(st.body, depth + 1, stack + [st])
+            elif isinstance(st, ast.While):
+                out.append(f"{pre}while {conds(st.test, stack)}")
+                walk(st.body, depth + 1, stack)
+            elif isinstance(st, ast.Try):
+                out.append(f"{pre}try")
+                walk(st.body, depth + 1, stack)
+                for h in st.handlers:
+                    out.append(f"{pre}except {_norm(ast.unparse(h.type), renames) if h.type else ''}")
+                    walk(h.body, depth + 1, stack)
+            elif isinstance(st, ast.With):
+                walk(st.body, depth, stack)
+            elif isinstance(st, ast.Return):
+                hs = holes_of(st.value, stack) if st.value is not None and not (isinstance(st.value, ast.Constant) and st.value.value is None) else []
+                out.append(f"{pre}return " + " ".join(hs) if hs else f"{pre}return")
+            elif isinstance(st, ast.Raise):
+                out.append(f"{pre}raise {_norm(ast.unparse(st.exc.func), renames) if isinstance(st.exc, ast.Call) else ''}")
+            elif isinstance(st, ast.AugAssign) and isinstance(st.op, ast.Add):
+                emit(pre, holes_of(st.value, stack))
+            elif isinstance(st, ast.Expr) and isinstance(st.value, ast.Call):
+                c = st.value
+                f = c.func
+                name = f.id if isinstance(f, ast.Name) else (f.attr if isinstance(f, ast.Attribute) else "?")
+                if name in ("append", "extend", "write", "print") or (isinstance(f, ast.Name) and _is_printer(flow, f)):
+                    hs = []
+                    for a in c.args:
+                        hs += holes_of(a, stack)
+                    for k in c.keywords:
+                        hs += [f"{k.arg}="] + holes_of(k.value, stack)
+                    emit(pre, hs)
+                else:
+                    out.append(f"{pre}call {_norm(_txt(ex(c, stack)), renames)}")
+            elif isinstance(st, (ast.Assign, ast.AnnAssign)):
+                tg = st.targets[0] if isinstance(st, ast.Assign) else st.target
+                if not isinstance(tg, (ast.Name, ast.Tuple, ast.List)):
+                    out.append(f"{pre}store {_norm(_txt(tg), renames)} = " + _norm(_txt(ex(st.value, stack)), renames) if st.value is not None else f"{pre}store")
+                # plain locals are consumed through expansion by the statements that use them
+            elif isinstance(st, (ast.FunctionDef, ast.AsyncFunctionDef)):
+                out.append(f"{pre}def")
+                walk(st.body, depth + 1, stack)
+            elif isinstance(st, ast.Pass):
+                continue
+            else:
+                out.append(f"{pre}{type(st).__name__}")
+
+    def _is_printer(flow_, f_):
+        try:
+            ds = flow_.defs_of(f_)
+        except Exception:
+            return False
+        return any(d.value is not None and ("print" in ast.unparse(d.value)) for d in ds)
+    walk(fn.body, 0, [])
+    return out
